@@ -97,7 +97,14 @@ struct Dumper {
   }
   bool underRoot (SourceLocation L) {
     std::string f = fileOf (L);
-    return f.compare (0, g_root.size (), g_root) == 0;
+    size_t start = 0;
+    while (start <= g_root.size ()) {  // colon-separated list of root prefixes
+      size_t end = g_root.find (':', start);
+      if (end == std::string::npos) end = g_root.size ();
+      if (end > start && f.compare (0, end - start, g_root, start, end - start) == 0) return true;
+      start = end + 1;
+    }
+    return false;
   }
   std::string macroOf (SourceLocation L) {
     if (!L.isMacroID ()) return "";
@@ -110,10 +117,16 @@ struct Dumper {
     }
     return name;
   }
-  static std::string recName (const RecordDecl *RD) {
+  std::string recName (const RecordDecl *RD) {
     std::string n = RD->getNameAsString ();
     if (n.empty ()) {
       if (const TypedefNameDecl *TD = RD->getTypedefNameForAnonDecl ()) n = TD->getNameAsString ();
+    }
+    if (n.empty ()) {
+      std::string f = fileOf (RD->getLocation ());
+      size_t slash = f.rfind ('/');
+      if (slash != std::string::npos) f = f.substr (slash + 1);
+      n = "anon@" + f + ":" + std::to_string (lineOf (RD->getLocation ()));
     }
     return n;
   }
